@@ -117,3 +117,5 @@ func execOutput(name string, args ...string) (string, error) {
 	out, err := exec.Command(name, args...).CombinedOutput()
 	return string(out), err
 }
+
+func execCommand(name string, args ...string) *exec.Cmd { return exec.Command(name, args...) }
